@@ -71,3 +71,19 @@ def _lexer_scope(path):
 guards_slice_lexer = _lexer_scope('slicec/src/parsers/slice/lexer.rs')
 guards_comment_lexer = _lexer_scope('slicec/src/parsers/comments/lexer.rs')
 guards_preprocessor_lexer = _lexer_scope('slicec/src/parsers/preprocessor/lexer.rs')
+
+
+def _codec_scope(files):
+    def scope(f):
+        return (f.span.file or '') in files
+    scope.all_returns = True
+    scope.crates = ('slice_codec',)
+    scope.extra_calls = ('write_byte', 'write_bytes_exact', 'write_bytes_into_reserved_exact', 'reserve_space', 'read_byte', 'read_bytes_exact', 'read_bytes_into_exact', 'peek_byte',
+                         'peek_bytes_exact', 'try_reserve', 'try_reserve_exact', 'set_len', 'does_buffer_have_at_least', 'ensure_buffer_has_at_least', 'encode_varint', 'encode_varuint',
+                         'encode_size', 'decode_varint', 'decode_varuint', 'decode_size', 'skip_tagged_fields', 'copy_nonoverlapping', 'get_unchecked', 'get_unchecked_mut', 'from_utf8', 'insert')
+    return scope
+
+
+guards_codec_encode = _codec_scope(('slice-codec/src/encoding.rs', 'slice-codec/src/encode_into.rs', 'slice-codec/src/encoder.rs'))
+guards_codec_decode = _codec_scope(('slice-codec/src/decoding.rs', 'slice-codec/src/decode_from.rs', 'slice-codec/src/decoder.rs'))
+guards_codec_buffer = _codec_scope(('slice-codec/src/buffer/mod.rs', 'slice-codec/src/buffer/slice.rs', 'slice-codec/src/buffer/vec.rs'))
